@@ -44,7 +44,15 @@ ParamTable == [
     RC5_64_12_13  |-> <<64, 12, 13>>,
     RC5_128_4_5   |-> <<128, 4, 5>>,
     RC5_8_1_3     |-> <<8, 1, 3>>,
-    RC5_16_2_1    |-> <<16, 2, 1>> ]
+    RC5_16_2_1    |-> <<16, 2, 1>>,
+    RC5_8_255_255 |-> <<8, 255, 255>>,
+    RC5_128_255_16 |-> <<128, 255, 16>>,
+    RC5_64_0_8 |-> <<64, 0, 8>>,
+    RC5_16_1_0 |-> <<16, 1, 0>>,
+    RC5_128_12_255 |-> <<128, 12, 255>>,
+    RC5_64_20_9 |-> <<64, 20, 9>>,
+    RC5_8_0_0 |-> <<8, 0, 0>>,
+    RC5_16_16_3 |-> <<16, 16, 3>> ]
 
 \* limb modulus and lg(w) for word size w
 Mod(w) == IF w = 8 THEN 256 ELSE 65536
